@@ -115,6 +115,7 @@ inline std::vector<Op> generate_plan(int prop, std::uint64_t run_seed, bool thor
         else if (p.w[k] > 0 && r.chance(1, 6)) p.w[k] *= 3;
     }
     if (p.small_domain && r.chance(1, 3)) p.small_domain = 2 + static_cast<int>(r.below(5));
+    if (p.small_domain && r.chance(1, 2)) p.small_domain = -p.small_domain;  // scrambled: values differ in several bytes
     int total = 0;
     for (int k = 0; k < OP_COUNT; ++k) total += p.w[k];
     const int len = p.min_len + static_cast<int>(r.below(static_cast<std::uint64_t>(p.max_len - p.min_len + 1)));
